@@ -158,14 +158,6 @@ func Minimise(sc *Scenario, fails func(*Scenario) bool) *Scenario {
 			break
 		}
 	}
-	// shorter run
-	for k := 0; k < 4; k++ {
-		c := cur.Clone()
-		c.EndUs = c.HorizonUs + (c.EndUs-c.HorizonUs)/2
-		if !try(c) {
-			break
-		}
-	}
 	return cur
 }
 
